@@ -20,7 +20,8 @@ class Ctx:
         self.extra = {}
         self.workdir = os.path.join(os.environ.get("VERIF_TMP", "/var/tmp"), "xzverif.%s.%d" % (pid, os.getpid()))
         os.makedirs(self.workdir, exist_ok=True)
-        self.replaydir = os.path.join(VERIF, "replays")
+        self.replaydir = os.environ.get("VERIF_REPLAY_DIR", os.path.join(VERIF, "replays"))
+        self.evidencedir = os.environ.get("VERIF_EVIDENCE_DIR", os.path.join(VERIF, "evidence"))
         fp = os.path.join(VERIF, "known_findings.json")
         self.findings = json.load(open(fp)).get("findings", []) if os.path.exists(fp) else []
 
@@ -99,11 +100,11 @@ class Ctx:
         cov.update(self.extra)
         ev = dict(property_id=self.pid, tier=self.tier, seed=int(self.seed), level=level, coverage=cov,
                   assumptions=self.assumptions, wall_s=round(wall, 2), violations=len(self.violations))
-        os.makedirs(os.path.join(VERIF, "evidence"), exist_ok=True)
-        tmp = os.path.join(VERIF, "evidence", ".%s.json.tmp" % self.pid)
+        os.makedirs(self.evidencedir, exist_ok=True)
+        tmp = os.path.join(self.evidencedir, ".%s.json.tmp" % self.pid)
         with open(tmp, "w") as f:
             json.dump(ev, f, indent=1, default=str)
-        os.replace(tmp, os.path.join(VERIF, "evidence", "%s.json" % self.pid))
+        os.replace(tmp, os.path.join(self.evidencedir, "%s.json" % self.pid))
         shutil.rmtree(self.workdir, ignore_errors=True)
         for f in self.known_hits:
             print("KNOWN-FINDING: property=%s %s" % (self.pid, f.get("what", f["key"])), flush=True)
